@@ -21,6 +21,8 @@ RULE = ('Hypothesis-generated histories over one root ResourceMap: set(path, val
         'parent/key back-links (walk through public .maps/.handles); after clear(): map empty in all layers, '
         'former direct children detached, map still attached to its own parent. '
         'In ~20% of the cases a push_layer pushes 17-130 layers, re-assigning the handles of the map now and then while the first half piles up. '
+        ''
+        'Some handles refine __call__ (they hand out a view of what they loaded): [] and get()() must still denote the same object. '
         'Non-trivial = a composite-key '
         'assignment creating >= 1 intermediate map, or an assignment replacing a subtree/handle by the other '
         'kind, or a clear of a map holding layered handles or sub-maps. Distinct = sha1 of canonical JSON.')
